@@ -18,6 +18,17 @@ Inductive offender (vals : kmap aval) : str -> schema -> list str -> Prop :=
     offender vals (sub pre tag) (Node cm cfs) tr ->
     offender vals pre (Node m fs) (g :: tr).
 
+(* what the validation theorems need of ValidateEmbedded / RecordField / the ozzo conversion: a structure field without
+   Validate is skipped with `continue`, the first failing field's error is returned, field names are PREPENDED to the
+   tree, the reported own field is the first of the sorted failing ones *)
+Definition valid_facts_ok (f : facts) : Prop :=
+  v_struct_kind_only (vf f) = true /\ v_skip_no_validator (vf f) = SkipContinue /\ v_first_error_returned (vf f) = true /\
+  v_tree_prepend (vf f) = true /\ v_ozzo_sorted_first (vf f) = true.
+
+Section Valid.
+Variable f : facts.
+Hypothesis FOK : valid_facts_ok f.
+
 (* the loop of ValidateEmbedded as an ordinary function *)
 Fixpoint emb_list (vals : kmap aval) (pre : str) (l : list (str * str * schema)) : option (list str * list str) :=
   match l with
@@ -27,8 +38,8 @@ Fixpoint emb_list (vals : kmap aval) (pre : str) (l : list (str * str * schema))
       | Leaf _ _ _ => emb_list vals pre r
       | Node VNone _ => emb_list vals pre r
       | Node _ _ =>
-          match validate vals (sub pre tag) c with
-          | Some (tr, ms) => Some (g :: tr, upper tag :: ms)
+          match validate f vals (sub pre tag) c with
+          | Some e => Some (rec_field f g tag e)
           | None => emb_list vals pre r
           end
       end
@@ -37,8 +48,11 @@ Fixpoint emb_list (vals : kmap aval) (pre : str) (l : list (str * str * schema))
 Definition own_of (vals : kmap aval) (pre : str) (fs : list (str * str * schema)) : option (list str * list str) :=
   match min_str None (own_failures vals pre fs) with Some t => Some ([t], []) | None => None end.
 
+Lemma rec_field_tree g tag e : fst (rec_field f g tag e) = g :: fst e.
+Proof. destruct FOK as [_ [_ [_ [H _]]]]. unfold rec_field. now rewrite H. Qed.
+
 Lemma validate_node vals pre m fs :
-  validate vals pre (Node m fs) =
+  validate f vals pre (Node m fs) =
   match m with
   | VNone => None
   | VOwnOnly => own_of vals pre fs
@@ -46,7 +60,8 @@ Lemma validate_node vals pre m fs :
   | VOwnFirst => match own_of vals pre fs with Some e => Some e | None => emb_list vals pre fs end
   end.
 Proof.
-  simpl.
+  destruct FOK as [_ [H1 [H2 [_ H4]]]].
+  simpl. rewrite H1, H2, H4.
   assert (E : forall l,
     (fix go (l : list (str * str * schema)) : option (list str * list str) :=
        match l with
@@ -56,8 +71,8 @@ Proof.
            | Leaf _ _ _ => go r
            | Node VNone _ => go r
            | Node _ _ =>
-               match validate vals (sub pre tag) c with
-               | Some (tr, ms) => Some (g :: tr, upper tag :: ms)
+               match validate f vals (sub pre tag) c with
+               | Some e => Some (rec_field f g tag e)
                | None => go r
                end
            end
@@ -94,7 +109,7 @@ Qed.
 
 (* ---------- soundness: a reported path is an offender ---------- *)
 Lemma validate_sound vals s : forall pre tr ms,
-  validate vals pre s = Some (tr, ms) -> offender vals pre s tr.
+  validate f vals pre s = Some (tr, ms) -> offender vals pre s tr.
 Proof.
   induction s as [t d r|m fs IH] using schema_ind'; intros pre tr ms H; [discriminate|].
   rewrite validate_node in H.
@@ -107,6 +122,7 @@ Proof.
   assert (EMB : forall tr ms, (m = VEmbFirst \/ m = VOwnFirst) -> emb_list vals pre fs = Some (tr, ms) ->
                 offender vals pre (Node m fs) tr).
   { intros tr' ms' Hm He. clear H OWN.
+    assert (HP : v_tree_prepend (vf f) = true) by (destruct FOK as [_ [_ [_ [HP _]]]]; exact HP).
     assert (G : exists g tag cm cfs tr0, tr' = g :: tr0 /\ In (g, tag, Node cm cfs) fs /\
                 offender vals (sub pre tag) (Node cm cfs) tr0).
     { revert He. induction fs as [|[[g tag] c] r IHr]; simpl; [discriminate|].
@@ -119,7 +135,8 @@ Proof.
         exists g0, tag0, cm, cfs, tr0. simpl. auto. }
       destruct c as [t d rq|cm cfs]; [auto|].
       destruct cm; auto;
-        (destruct (validate vals (sub pre tag) (Node _ cfs)) as [[tr0 ms0]|] eqn:V; [|auto];
+        (destruct (validate f vals (sub pre tag) (Node _ cfs)) as [[tr0 ms0]|] eqn:V; [|auto];
+         unfold rec_field in He; simpl in He; rewrite HP in He;
          inversion He; subst; eexists g, tag, _, cfs, tr0; split; [reflexivity|]; split; [left; reflexivity|];
          eapply IHc; eauto). }
     destruct G as [g [tag [cm [cfs [tr0 [-> [Hf Ho]]]]]]]. eapply Off_emb; eauto. }
@@ -141,7 +158,7 @@ Proof.
 Qed.
 
 Lemma validate_complete vals s : forall pre,
-  validate vals pre s = None -> forall tr, ~ offender vals pre s tr.
+  validate f vals pre s = None -> forall tr, ~ offender vals pre s tr.
 Proof.
   induction s as [t d r|m fs IH] using schema_ind'; intros pre H tr Ho; [inversion Ho|].
   rewrite validate_node in H.
@@ -164,29 +181,30 @@ Proof.
     inversion IH as [|? ? IHc IHrest]; subst. simpl in IHc. simpl.
     destruct Hf as [Ef|Hf].
     + inversion Ef; subst. destruct cm; try congruence;
-        (destruct (validate vals (sub pre tag) (Node _ cfs)) as [[? ?]|] eqn:V; [discriminate|];
+        (destruct (validate f vals (sub pre tag) (Node _ cfs)) as [[? ?]|] eqn:V; [discriminate|];
          intros _; eapply IHc; eauto).
     + intros E. apply IHr; auto.
       destruct c as [? ? ?|cm0 cfs0]; auto. destruct cm0; auto;
-        (destruct (validate vals (sub pre tag0) (Node _ cfs0)) as [[? ?]|]; [discriminate|auto]).
+        (destruct (validate f vals (sub pre tag0) (Node _ cfs0)) as [[? ?]|]; [discriminate|auto]).
 Qed.
 
 (* ---------- the load function ---------- *)
 Lemma load_validates_l w sc vs :
-  load fixed w sc = Loaded vs ->
-  unmarshal fixed w sc = Some vs /\
+  load f w sc = Loaded vs ->
+  unmarshal f w sc = Some vs /\
   forall tr, ~ offender (combine (map fst (leaves [] sc)) vs) [] sc tr.
 Proof.
-  unfold load. destruct (unmarshal fixed w sc) as [vs'|]; [|discriminate].
-  destruct (validate _ [] sc) as [[tr ms]|] eqn:V; [discriminate|].
+  unfold load. destruct (unmarshal f w sc) as [vs'|]; [|discriminate].
+  destruct (validate f _ [] sc) as [[tr ms]|] eqn:V; [discriminate|].
   intros H. inversion H; subst. split; auto. apply validate_complete. exact V.
 Qed.
 
 Lemma load_invalid_names_offender_l w sc vs tr ms :
-  load fixed w sc = Invalid vs tr ms ->
-  unmarshal fixed w sc = Some vs /\ offender (combine (map fst (leaves [] sc)) vs) [] sc tr.
+  load f w sc = Invalid vs tr ms ->
+  unmarshal f w sc = Some vs /\ offender (combine (map fst (leaves [] sc)) vs) [] sc tr.
 Proof.
-  unfold load. destruct (unmarshal fixed w sc) as [vs'|]; [|discriminate].
-  destruct (validate _ [] sc) as [[tr' ms']|] eqn:V; [|discriminate].
+  unfold load. destruct (unmarshal f w sc) as [vs'|]; [|discriminate].
+  destruct (validate f _ [] sc) as [[tr' ms']|] eqn:V; [|discriminate].
   intros H. inversion H; subst. split; auto. eapply validate_sound; eauto.
 Qed.
+End Valid.
